@@ -39,7 +39,7 @@ def evaluate_case(prop, case):
     res.extra_runs = 0
     res.vtime = 0.0
     res.shape = hash(tuple(show_history(case))) ^ hash(tuple(hres.log))
-    if prop in ('C01', 'C02', 'C03'):
+    if prop in ('C01', 'C02', 'C03', 'C12'):
         res.nontrivial = bool(hres.stats.get('runs_of_built_graph'))
     elif prop == 'C19':
         res.nontrivial = hres.stats.get('construction_steps', 0) >= 8
